@@ -1,5 +1,6 @@
 import TexcraftModel.Util.Proto
 import TexcraftModel.Model.C17
+import TexcraftModel.Model.C17NL
 
 /-! Driver for C17. Requests (all integers decimal, lists length-prefixed):
 
@@ -8,7 +9,10 @@ import TexcraftModel.Model.C17
 * `sc v ds`          → `M=<int|panic> S=<int|abort>` (`toScaled`, `storeScaled`)
 * `cp max n v…`      → `ok k t… m (v i)…` or `panic` (`compress`)
 * `cpchk max n v… k t… m (v i)…` → `le=<0/1> near=<0/1> min=<0/1>` (`checkCompress` on a claimed result)
-* `nl drop k ne… n (s l)…` → `w (s l)… ; loops (c d)… ; chains (c len d…)… for every c with a non-empty chain ; algo=<0/1>`
+* `nl drop k ne… n (s l)…` → `w (s l)… ; loops (c d)… ; chains (c len d…)… | T | same` where the first part is
+  the specification (cut graph; chains for every c with a non-empty chain), `T` is the transcription
+  of `new`/`get` (`loops ; chains`, or `panic`/`fuel`) for the ascending iteration order and
+  `same` tells whether the descending order gives the same `T`
 -/
 open C17 Proto
 
@@ -86,12 +90,24 @@ def handle (line : String) : String :=
           let ne := ne.map Int.toNat
           let es := es.map fun (a, b) => (a.toNat, b.toNat)
           let (g, w) := nlEdges (fun c => !ne.contains c) (drop != 0) es [] []
+          -- specification: the cut graph
           let loops := nlLoops g 255
           let keys := (List.range 256).filter (fun c => !(nlGet g c).isEmpty)
           let chains := keys.map fun c => let ch := nlGet g c; ((c : Int) :: (ch.length : Int) :: ch.map Int.ofNat)
-          let algoG := nlAlgoGraph g
-          let algoOk := (List.range 256).all fun c => nxt algoG c == cutNxt g c
-          s!"{showPairs (natPairs w)} ; {showPairs (natPairs loops)} ; {showInts ((keys.length : Int) :: chains.flatten)} ; algo={b2i algoOk}"
+          -- model: the transcription of `new`/`get`, ascending and descending iteration order
+          let nodes := nodesOf g
+          let asc := (List.range 256).filter (fun c => nodes.contains c)
+          let showT (r : Res (Prog × List (Nat × Nat))) : String :=
+            match r with
+            | .panic => "panic"
+            | .fuel => "fuel"
+            | .ok (p, lw) =>
+              let ks := (List.range 256).filter (fun c => !(progGet p c).isEmpty)
+              let chs := ks.map fun c => let ch := progGet p c; ((c : Int) :: (ch.length : Int) :: ch.map Int.ofNat)
+              s!"{showPairs (natPairs lw)} ; {showInts ((ks.length : Int) :: chs.flatten)}"
+          let t1 := showT (nlCompile g asc)
+          let t2 := showT (nlCompile g asc.reverse)
+          s!"{showPairs (natPairs w)} ; {showPairs (natPairs loops)} ; {showInts ((keys.length : Int) :: chains.flatten)} | {t1} | {b2i (t1 == t2)}"
         | none => "bad-request"
       | _ => "bad-request"
     | _ => "bad-request"
